@@ -136,6 +136,8 @@ def check_ewald(ck):
             apos = ck.rng.random((nat, 3)) @ lat
             if rep == 0:
                 apos[0] = 0.0
+            else:
+                apos = apos + ck.rng.integers(-2, 3, size=(nat, 3)) @ lat  # ions listed in other periodic images (a Cell accepts that)
             nconf = 3
             frac = ck.rng.random((nconf, ne, 3))
             frac[0] = frac[0] * 5 - 2.5  # electrons outside the cell
@@ -267,7 +269,7 @@ def check_total(ck):
 def main(argv):
     ck = Check("C10", argv)
     ck.rule = ("open: OpenCoulomb on random molecules (1-4 atoms, charges 1-29, 1-6 electrons, spreads 0.01-20 bohr, far from the origin) against exactly rounded direct sums; "
-               "3D: Ewald.energy on cubic, fcc, bcc, hexagonal, triclinic, orthorhombic cells with 1-3 ions of charge 1-6, neutral and charged (-3..+2), 1-9 electrons inside and outside the cell, against an independent Ewald sum "
+               "3D: Ewald.energy on cubic, fcc, bcc, hexagonal, triclinic, orthorhombic cells with 1-3 ions of charge 1-6 (listed in the home cell or in other periodic images), neutral and charged (-3..+2), 1-9 electrons inside and outside the cell, against an independent Ewald sum "
                "(ee = electrons alone, ii = ions alone, total = all charges; ei by difference), the implementation re-run with splitting parameter x1.25 and x1.6, random lattice translations of subsets of electrons and relabellings; "
                "generate_positive_gpoints against the model's half space as point sets; EnergyAccumulator total against ke+ee+ei+ecp+ii.")
     ck.trusted = ["Coq 8.16.1 kernel + vm_compute", "Coq Reals axioms", "translator/gen_energy.py", "harness/ewald_oracle.py (validated in every run: NaCl, CsCl, Wigner constants; its own splitting independence)", "scipy erfc"]
